@@ -522,6 +522,12 @@ package zygo
 //@ ghost valueText := ret0 @after call SexpString[*]
 //@ C01 assert value-width-is-the-byte-length-of-the-printed-value @before call append[1]: arg1[0] == len(valueText) + 1
 //@ C01 assert key-width-is-the-byte-length-of-the-printed-key @before call append[0]: arg1[0] == len(str)
+// the ways a macro call / a macexpand can fail to compile are a reviewed list: the expander itself
+// (Apply: the macro's own arity and body errors), the compile of the expansion, the shape checks of
+// the special forms and the formatted messages. A new refusal between the macro look-up and the
+// expander (a helper that rejects calls the language accepts) is a new source and must be reviewed.
+//@ errorsources C15 (*Generator).GenerateMacexpand | Apply|Errorf|Generate|GenerateCall|ListToArray|New
+//@ errorsources C15 (*Generator).GenerateCallBySymbol | Apply|Errorf|New|Generate[A-Za-z]*|generateSyntaxQuote[A-Za-z]*
 // mdef: every target slot is filled with a symbol before the value is compiled; the bind
 // instruction hands each one to BindSymbol, which dereferences it
 //@ func (*Generator).GenerateMultiDef
